@@ -69,7 +69,7 @@ fn case_bytes(label: &str, bytes: &[u8], with_local: bool, acc: &mut Acc) {
 }
 
 fn zone(version: u8, transitions: Vec<(i64, usize)>, footer: &str) -> Zone {
-    Zone { version, transitions, types: vec![(-1234, false, 0), (3600, false, 4), (7200, true, 8)], footer: None, footer_text: footer.to_string() }
+    Zone { version, transitions, types: vec![(-1234, false, 0), (3600, false, 4), (7200, true, 8)], footer: None, footer_text: footer.to_string(), leaps: 0, indicators: false }
 }
 
 /// base files: (label, bytes)
@@ -82,6 +82,10 @@ pub fn bases() -> Vec<(String, Vec<u8>)> {
         ("v3-alt-footer".to_string(), rz::write_tzif(&zone(3, vec![], "IST-2IDT,M3.4.4/26,M10.5.0"))),
         ("v2-julian-footer".to_string(), rz::write_tzif(&zone(2, vec![(0, 1)], "CET-1CEST,J60,300/1:30"))),
     ];
+    let mut lz = zone(2, t3.clone(), "EST5EDT,M3.2.0,M11.1.0");
+    lz.leaps = 2;
+    lz.indicators = true;
+    v.push(("v2-leap-records-and-indicators".to_string(), rz::write_tzif(&lz)));
     if let Ok(b) = std::fs::read(format!("{}/Africa__Casablanca", crate::props::c18::corpus_dir())) {
         v.push(("corpus-Africa__Casablanca".to_string(), b));
     }
